@@ -81,7 +81,7 @@ func (r *Result) absorb(x *Explorer) {
 		}
 		addMap(r.ForkSites, x.ForkSites)
 	}
-	if len(r.ValSamples) < 4 {
+	if len(r.ValSamples) < 2*x.ValWant {
 		r.ValSamples = append(r.ValSamples, x.ValSamples...)
 	}
 	r.Merged += x.merged
